@@ -116,13 +116,17 @@ func runC11(c *eng.Ctx) {
 	if f := r1.NeedFunc(pkgSched + ".(*scheduleManager).Remove"); f != nil && entries != nil && ids != nil {
 		info := f.Pkg.TypesInfo
 		g := p.GraphOf(f)
+		// an expression that denotes the Ids map of an entry: mentions the field, possibly through a local (ids := entry.Ids)
+		isIds := func(x ast.Expr) bool {
+			return eng.MentionsField(info, x, ids, false) || eng.MentionsField(info, resolveLocal(info, f.Decl.Body, x), ids, false)
+		}
 		var hasEntry, hasID types.Object
 		eng.InspectNoLit(f.Decl.Body, func(n ast.Node) bool {
 			if as, ok := n.(*ast.AssignStmt); ok && len(as.Lhs) == 2 && len(as.Rhs) == 1 {
 				if ix, isIx := ast.Unparen(as.Rhs[0]).(*ast.IndexExpr); isIx {
 					if eng.IsField(info, ix.X, entries) {
 						hasEntry = eng.SelObj(info, as.Lhs[1])
-					} else if eng.MentionsField(info, ix.X, ids, false) {
+					} else if isIds(ix.X) {
 						hasID = eng.SelObj(info, as.Lhs[1])
 					}
 				}
@@ -141,7 +145,7 @@ func runC11(c *eng.Ctx) {
 				if d := builtinCall(info, es.X, "delete"); d != nil {
 					if eng.IsField(info, d.Args[0], entries) {
 						delEntry = n
-					} else if eng.MentionsField(info, d.Args[0], ids, false) {
+					} else if isIds(d.Args[0]) {
 						delID = n
 					}
 				}
@@ -151,10 +155,8 @@ func runC11(c *eng.Ctx) {
 			r1.Bad(f.Key+" shape", f.Decl.Pos(), fmt.Sprintf("Remove does not `delete the id, then stop the job and delete the entry when no id is left` (cron.Remove=%v delete(Entries)=%v delete(Ids)=%v)", cronRemove != nil, delEntry != nil, delID != nil))
 		} else {
 			empty := g.FactEdge(func(fc eng.Fact) bool {
-				x, y, eq, ok := eng.EqAtom(fc)
-				v, isC := eng.ConstInt(info, y)
-				cl := builtinCall(info, x, "len")
-				return ok && eq && isC && v == 0 && cl != nil && eng.MentionsField(info, cl.Args[0], ids, false)
+				nonEmpty, ok := lenFact(info, fc, isIds)
+				return ok && !nonEmpty
 			})
 			known := g.FactEdge(func(fc eng.Fact) bool {
 				return fc.Pos && fc.Y == nil && hasID != nil && eng.SelObj(info, fc.X) == hasID
@@ -172,10 +174,8 @@ func runC11(c *eng.Ctx) {
 			}
 			// when the last id goes, the job is stopped: from delID, on the len==0 edge, cron.Remove is passed
 			notEmpty := g.FactEdge(func(fc eng.Fact) bool {
-				x, y, eq, ok := eng.EqAtom(fc)
-				v, isC := eng.ConstInt(info, y)
-				cl := builtinCall(info, x, "len")
-				return ok && !eq && isC && v == 0 && cl != nil && eng.MentionsField(info, cl.Args[0], ids, false)
+				nonEmpty, ok := lenFact(info, fc, isIds)
+				return ok && nonEmpty
 			})
 			ex := g.MustPassToExit(eng.Query{From: []*eng.GNode{delID}, AvoidEdge: notEmpty}, func(m *eng.GNode) bool { return m == cronRemove })
 			r1.Check(ex == nil, f.Key+" stops-when-last", delID.Node.Pos(), "removing the last id stops the cron job", "after the last id was removed the cron job can stay registered (it keeps firing for nobody)")
